@@ -1,8 +1,7 @@
 /-
   C01/FnDriver — request `fn <fuel> <program>`: run the ES5 function-layer interpreter (FnSpec).
   reply token: t:[log tokens];k:normal:<completion value> | k:throw:<value>
-  model = spec except in the Dev regions forin_break_value / forin_revisit, where the model side runs
-  with St.ottoCV / St.ottoShadow
+  model = spec: this layer has no transcription of otto; otto itself is compared with the oracle
 -/
 import OttoVerif.C01.FnSpec
 import OttoVerif.C01.Driver
@@ -89,33 +88,6 @@ partial def fssOf : List SX → Option FSs
   | x :: r => do pure (.cons (← fsOf x) (← fssOf r))
 end
 
-/-- does a statement of this (function or eval) body, at any depth, have one of the given heads? -/
-partial def hasStmt (heads : List String) : SX → Bool
-  | .node nm as =>
-    if heads.contains nm then true
-    else if nm = "fn" || nm = "evd" || nm = "evi" then false
-    else as.any (hasStmt heads)
-
-/-- Dev region `forin_break_value` (decidable on the request): somewhere in the program there is a
-    for-in statement whose body contains both an expression statement and a `break`.  Only the
-    completion VALUE of such a for-in can differ (otto: a for-in left by break yields the value it had
-    when it started on the current object of the prototype chain; ES5 §12.6.4 step 6.f: V). -/
-partial def devForInBreak : SX → Bool
-  | .node nm as =>
-    (match nm, as with
-     | "FI", [_, _, _, body] => hasStmt ["BR"] body && hasStmt ["X"] body
-     | _, _ => false) || as.any devForInBreak
-
-/-- does the term contain a node with one of these heads anywhere (functions and eval bodies included)? -/
-partial def hasNode (heads : List String) : SX → Bool
-  | .node nm as => heads.contains nm || as.any (hasNode heads)
-
-/-- Dev region `forin_revisit` (decidable on the request): the program has a for-in statement and a
-    `delete` somewhere.  Only then can a property that shadowed an inherited one disappear during an
-    enumeration, which is the one situation where otto's visit-time shadow test differs (it visits the
-    inherited property although its name has been visited already). -/
-def devForInRevisit (p : SX) : Bool := hasNode ["FI"] p && hasNode ["dl", "dle"] p
-
 def out (r : Res V) : String :=
   match r with
   | .fuel => "fuel"
@@ -130,13 +102,7 @@ def handle (ws : List String) : Option String :=
       match declsOf ds, fssOf ss with
       | some d, some s =>
         let spec := out (runProgram n (names vs) d s)
-        let p : SX := .node "FP" [.node "D" ds, .node "S" ss]
-        let dB := devForInBreak p
-        let dR := devForInRevisit p
-        if dB || dR then
-          let dev := ",".intercalate ((if dB then ["forin_break_value"] else []) ++ (if dR then ["forin_revisit"] else []))
-          some (out (runProgram n (names vs) d s dB dR) ++ " " ++ spec ++ " " ++ dev)
-        else some (spec ++ " " ++ spec ++ " -")
+        some (spec ++ " " ++ spec ++ " -")
       | _, _ => some "bad-op"
     | _, _ => some "bad-op"
   | _ => none
